@@ -4,7 +4,7 @@
    Pseudo-spectral products on the N-grid are circular convolutions (convolution theorem, C03_convolution_theorem, per axis);
    the documented products of band-limited fields are linear convolutions.  All theorems are for every D, every N, every state. *)
 From Coq Require Import ZArith QArith List Bool Lia.
-From EXV Require Import Base.Scalar Base.FieldLemmas Layout.Freq Layout.FreqProofs DFT.DFT1 Nonlin.Conv Nonlin.ConvProofs Nonlin.Terms Nonlin.TermsProofs.
+From EXV Require Import Base.Scalar Base.FieldLemmas Layout.Freq Layout.FreqProofs DFT.DFT1 Nonlin.Conv Nonlin.ConvProofs Nonlin.Terms Nonlin.TermsProofs IC.Normalize DFT.DFTD.
 Import ListNotations.
 Local Open Scope fld_scope.
 Ltac splits := repeat match goal with |- _ /\ _ => split end.
@@ -30,6 +30,15 @@ Theorem C03_convolution_theorem : forall (F : FieldT) (n : nat) (w w' : F),
   dft n w (fun j => u j * v j) k = cconv n (dft n w u) (dft n w v) k / fz (Z.of_nat n).
 Proof. intros F n w w' Hn H1 H2 H3 u v k Hk. apply (dft_convolution F n w w'); assumption. Qed.
 Print Assumptions C03_convolution_theorem.
+
+(* ... and in every dimension D: for the D-fold iterate of the 1-D transform (what rfftn / irfftn compute), the transform of a pointwise
+   product on the n^D grid is n^-D times the D-dimensional circular convolution of the transforms - the contract behind prod2 / prod3 *)
+Theorem C03_convolution_theorem_any_dimension : forall (F : FieldT) (n : nat) (w w' : F),
+  (0 < n)%nat -> fpow w n = 1 -> (forall m, (0 < m < n)%nat -> fpow w m <> 1) -> w * w' = 1 ->
+  forall (D : nat) (u v : list nat -> F) (k : list nat), length k = D -> Forall (fun b => (b < n)%nat) k ->
+  dftD n D w (fun j => u j * v j) k = cconvD n D (dftD n D w u) (dftD n D w v) k / npts F D n.
+Proof. intros F n w w' Hn H1 H2 H3 D u v k Hl Hk. apply (dftD_convolution F n w w'); try assumption. split; assumption. Qed.
+Print Assumptions C03_convolution_theorem_any_dimension.
 
 (* with the cutoff of the code, the pseudo-spectral product equals the alias-free product on the retained band
    and vanishes outside it: quadratic with 3K < N, cubic with 4K < N *)
